@@ -317,7 +317,10 @@ next:;
 
         // If we didn't need the interpolation to begin with (maybe we didn't
         // find any points that can help us)..
-        if (basicV <= v) {
+        // (minCF is still zero when no point helped: then v is the plane through
+        // the corner values, which can only exceed basicV by rounding, and
+        // minI/minC must not be used)
+        if (minCF >= 0.0 || basicV <= v) {
             retval.head(point.size()).noalias() = point;
 
             return std::make_tuple(basicV, std::move(retval));
